@@ -51,6 +51,22 @@ def run(m, rep, tier):
             if not (('ne', '$0', '$1') in facts or ('ne', '$1', '$0') in facts):
                 bad.append('links are rewritten at %s even when both arguments are the same list' % s.loc())
                 break
+        # an empty source has no nodes: its sentinel must not be spliced in as if it were one
+        for s in link:
+            nonempty = False
+            for (op, x, y) in pv.facts_at(s):
+                for val, other, side in ((x, y, 'l'), (y, x, 'r')):
+                    vi = f.get(val) if isinstance(val, str) else None
+                    if vi is None or vi.op != 'load' or resolve_addr(f, vi.o[0]).root != '$1':
+                        continue
+                    a = resolve_addr(f, vi.o[0])
+                    if a.fsteps[-1:] == ((DL, 'size'),) and const_int(other) is not None and \
+                            ((op == 'ne' and const_int(other) == 0) or (op == 'ult' and side == 'r') or (op == 'ule' and side == 'r' and const_int(other) >= 1)):
+                        nonempty = True
+            if not nonempty:
+                bad.append('links are rewritten at %s without knowing that the source list has any node (source size > 0): for an empty source its '
+                           'head sentinel is spliced into the destination as if it were an element' % s.loc())
+                break
         sizes = [s for s in stores if resolve_addr(f, s.o[1]).fsteps[-1:] == ((DL, 'size'),) and resolve_addr(f, s.o[1]).root == '$0']
         ok = len(sizes) == 1
         if ok:
@@ -121,8 +137,9 @@ def run(m, rep, tier):
     adj = [f for f in fns if listrules.count_once(m, f, d5, DL, 'size')]
 
     def has(f, c):
+        is_size = listrules.field_addr_pred(m, f, DL, 'size')
         for s in f.all_insts():
-            if s.op == 'store' and resolve_addr(f, s.o[1]).fsteps[-1:] == ((DL, 'size'),):
+            if s.op == 'store' and is_size(s.o[1]):
                 if unit_step(f, s.o[0])[1] == c:
                     return True
         return False
@@ -240,9 +257,11 @@ def check_swap(m, f, rule):
 def check_foreach(m, rule):
     enums = astfacts.enum_constants(m)
     fwd, rev = enums.get('CSTL_DLIST_FOREACH_DIR_FWD'), enums.get('CSTL_DLIST_FOREACH_DIR_REV')
-    pf = m.pfn('cstl_dlist_foreach')
+    # the direction binding is judged on the unit with its private helpers inlined (per-direction walkers, a helper
+    # that maps the direction to a selector): how the walk is cut into functions does not matter
+    pf = m.focus('dlist').fn('cstl_dlist_foreach')
     f = m.ifn('cstl_dlist_foreach')
-    if pf is None or f is None or fwd is None or rev is None:
+    if pf is None or pf.decl or f is None or fwd is None or rev is None:
         rule.undecided('cstl_dlist_foreach', 'function or direction enumerators not found')
         return
 
@@ -271,11 +290,29 @@ def check_foreach(m, rule):
                             bound[cval] = fld
                     if _leads(pf, t.x['default'], bb):
                         bound.setdefault('default', fld)
+    from ..facts import FactCache, phi_leaves
+    fc = FactCache(pf)
+    dirkeys = {'$3'} | {i.ref for i in pf.all_insts() if i.op in ('zext', 'sext', 'trunc') and i.o[0] == '$3'}
+    if not bound:
+        # selector functions chosen by tests of the direction (an if-chain, a helper returning the selector)
+        sel = {fwd: set(), rev: set()}
+        for c in pf.all_insts():
+            if c.op != 'call' or c.callee is not None:
+                continue
+            cv = c.x.get('cv')
+            for leaf, lb, lf in phi_leaves(pf, fc, cv) if isinstance(cv, str) else []:
+                if not (isinstance(leaf, str) and leaf.startswith('@')):
+                    continue
+                fs = set(fc.block_facts(c.block)) | set(lf or ())
+                for d in (fwd, rev):
+                    excluded = any((op == 'eq' and x in dirkeys and const_int(y) is not None and const_int(y) != d)
+                                   or (op == 'ne' and x in dirkeys and const_int(y) == d) for (op, x, y) in fs)
+                    if not excluded:
+                        sel[d].add(selector_field(leaf[1:]))
+        if sel[fwd] and sel[rev]:
+            bound = {fwd: '/'.join(sorted(str(x) for x in sel[fwd])), rev: '/'.join(sorted(str(x) for x in sel[rev]))}
     if not bound:
         # no selector functions: the links are read directly under tests of the direction
-        from ..facts import FactCache
-        fc = FactCache(pf)
-        dirkeys = {'$3'} | {i.ref for i in pf.all_insts() if i.op in ('zext', 'sext', 'trunc') and i.o[0] == '$3'}
         fields = {fwd: set(), rev: set()}
         for ld in pf.all_insts():
             if ld.op != 'load':
